@@ -92,6 +92,8 @@ class Profile:
         self.brtable_max = 12
         self.surplus = True
         self.unreachable = True
+        self.max_locals = 8
+        self.max_size = 400
         self.__dict__.update(kw)
 
 
@@ -198,7 +200,7 @@ class FuncGen:
         self.params = list(params)
         self.result = result
         r = self.r
-        nl = r.randint(0, 8) if n_locals is None else n_locals
+        nl = r.randint(0, self.p.max_locals) if n_locals is None else n_locals
         self.decl = [r.choice(self.p.types) for _ in range(nl)]
         # scratch locals (one per type) + fuel
         self.tmp = {}
@@ -213,7 +215,7 @@ class FuncGen:
         self.depth = self.p.max_depth if depth is None else depth
         self.callees = list(ctx.funcs) if callees is None else callees
         self.size = 0
-        self.max_size = 400
+        self.max_size = self.p.max_size
 
     def local_groups(self):
         groups = []
@@ -377,7 +379,7 @@ class FuncGen:
             if targets and choice < 0.6:
                 i, lab = r.choice(targets)
                 then += self.expr(lab[1], d - 2) + [('br', i + 1)]
-            elif choice < 0.9 or not (p.allow_trap and p.unreachable):
+            elif choice < 0.93 or not p.unreachable:
                 if self.result:
                     then += self.expr(self.result, d - 2)
                 then += [('return',)]
